@@ -176,7 +176,18 @@ func childMain(args []string) int {
 	debug.SetMaxStack(256 << 20)
 	hangSampler()
 	in := bufio.NewReaderSize(os.Stdin, 1<<20)
-	out := bufio.NewWriterSize(os.Stdout, 1<<20)
+	// the protocol channel is a private duplicate of fd 1; fd 1 itself goes to /dev/null, because the
+	// interpreter writes some diagnostics ("Deprecated: …", var_dump) straight to os.Stdout and a
+	// stray line would be taken for the answer to the current request (and shift all later answers)
+	protoFd, err := syscall.Dup(1)
+	if err != nil {
+		return 4
+	}
+	if devnull, err := os.OpenFile(os.DevNull, os.O_WRONLY, 0); err == nil {
+		syscall.Dup2(int(devnull.Fd()), 1)
+		os.Stdout = devnull
+	}
+	out := bufio.NewWriterSize(os.NewFile(uintptr(protoFd), "proto"), 1<<20)
 	env := vh.NewEnv()
 	data.WriteOutput = func(string) {}
 	for {
@@ -196,7 +207,25 @@ func childMain(args []string) int {
 			rs.Toks, rs.LexPanic = lexOnce(rq.Mode, src)
 			rs.LexUS = time.Since(t0).Microseconds()
 		}
-		if rq.Parse {
+		if rq.Run {
+			// parse + run on a FRESH VM: declarations register at parse time, so parsing the same
+			// source twice on one VM (once to see whether it is accepted, once to run it) would
+			// reject every program that declares a class as "already declared"
+			fresh := vh.NewEnv()
+			o := fresh.RunSource(src, "/verif-run.zy")
+			data.WriteOutput = func(string) {}
+			if o.Kind == "parse-error" {
+				rs.Parse = "error"
+				rs.ParseMsg = o.Detail
+			} else {
+				rs.Parse = "ok"
+				rs.Run = o.Kind
+				rs.RunMsg = o.Detail
+				if o.Kind == "go-panic" {
+					rs.RunMsg = o.Detail + " @ " + panicSite(o.Stack)
+				}
+			}
+		} else if rq.Parse {
 			t0 := time.Now()
 			func() {
 				defer func() {
@@ -223,15 +252,6 @@ func childMain(args []string) int {
 				}
 			}()
 			rs.ParseUS = time.Since(t0).Microseconds()
-			if rq.Run && rs.Parse == "ok" {
-				o := env.RunSource(src, "/verif-run.zy")
-				data.WriteOutput = func(string) {}
-				rs.Run = o.Kind
-				rs.RunMsg = o.Detail
-				if o.Kind == "go-panic" {
-					rs.RunMsg = o.Detail + " @ " + panicSite(o.Stack)
-				}
-			}
 		}
 		jb, _ := json.Marshal(rs)
 		out.Write(jb)
@@ -357,8 +377,20 @@ func (p *Pool) Run(reqs []Req) []Verdict {
 				ch := make(chan rd, 1)
 				go func(w *worker) {
 					w.in.Write(append(jb, '\n'))
-					l, err := w.out.ReadBytes('\n')
-					ch <- rd{l, err}
+					for {
+						l, err := w.out.ReadBytes('\n')
+						if err == nil {
+							// only a JSON answer carrying this request's ID counts
+							var probe struct {
+								ID *int `json:"id"`
+							}
+							if json.Unmarshal(l, &probe) != nil || probe.ID == nil || *probe.ID != rq.ID {
+								continue
+							}
+						}
+						ch <- rd{l, err}
+						return
+					}
 				}(w)
 				select {
 				case r := <-ch:
